@@ -639,3 +639,21 @@ def r12(rr, repo):
             rr.ob('the send wait is left without sending only when the outputs budget is used up', okb, mod, b, witness=str(g)[:160], key='send-wait-gives-up-only-on-budget')
     loc = [n for n in walk_scope(lo) if isinstance(n, ast.Assign) and U(n.targets[0]) == 'outputs_timeout']
     rr.ob('loop_once takes its send budget from that value', bool(loc) and all(U(n.value) == 'self.outputs_timeout' for n in loc), mod, loc[0] if loc else lo, witness=U(loc[0])[:60] if loc else 'no local', key='outputs-timeout-used')
+
+
+@rule('C04.R13', "an error out of recv() does not wedge the receiver: when recv() has found its sets complete, every source is out of the poller and the prefetch request is on its way; a `raise` at that point "
+                 "(two sources carrying the same topic) that leaves the sets in place leaves a caller that carries on (LOOP_EXC off) with a receiver that polls nothing, takes nothing and repeats its request "
+                 "every interval - each repeat a permission for every source to publish on. Every raise between 'all sets complete' and the return is preceded by the reset that drops the sets and "
+                 "re-registers the sources (new_recv)")
+def r13(rr, repo):
+    za = anchors(repo)
+    rets = [n for n in walk_scope(za.R_recv) if isinstance(n, ast.If) and U(n.test) == 'got_all']
+    rr.floor("'all sets complete' blocks of recv()", len(rets), 1, za.mod, za.R_recv)
+    n = 0
+    for blk in rets:
+        for r in [x for st in blk.body for x in ast.walk(st) if isinstance(x, ast.Raise)]:
+            n += 1
+            _, lst, i = stmt_list_containing(r)
+            before = [s for s in lst[:i] if isinstance(s, ast.Expr) and isinstance(s.value, ast.Call) and U(s.value.func) == 'self.new_recv']
+            rr.ob('the complete sets are dropped (self.new_recv()) before the error leaves recv()', bool(before), za.mod, r, witness=U(r)[:90], key='raise-after-complete-set-drops-it')
+    rr.floor('raise statements in the delivery block of recv()', n, 1, za.mod, za.R_recv)
